@@ -18,6 +18,7 @@ import (
 	"time"
 
 	"github.com/bufbuild/protovalidate-go"
+	"github.com/ethereum/go-ethereum"
 	"github.com/ethereum/go-ethereum/accounts/abi"
 	"github.com/ethereum/go-ethereum/common"
 	"github.com/ethereum/go-ethereum/core/types"
@@ -30,6 +31,7 @@ import (
 	preconfcontract "github.com/primevprotocol/mev-commit/pkg/contracts/preconf"
 	"github.com/primevprotocol/mev-commit/pkg/evmclient"
 	mockevmclient "github.com/primevprotocol/mev-commit/pkg/evmclient/mock"
+	"github.com/primevprotocol/mev-commit/pkg/evmclient/mockevm"
 	"github.com/primevprotocol/mev-commit/pkg/p2p"
 	"github.com/primevprotocol/mev-commit/pkg/preconfirmation"
 	providerapi "github.com/primevprotocol/mev-commit/pkg/rpc/provider"
@@ -152,16 +154,16 @@ func prim(hash, sig []byte) Prim {
 }
 
 var (
-	bidABI, _   = abi.JSON(strings.NewReader(bidderregistry.BidderregistryMetaData.ABI))
-	storeABI, _ = abi.JSON(strings.NewReader(preconfcommitmentstore.PreconfcommitmentstoreMetaData.ABI))
-	regAddr     = common.HexToAddress("0x00000000000000000000000000000000000000b1")
-	daAddr      = common.HexToAddress("0x00000000000000000000000000000000000000da")
+	bidABI, _    = abi.JSON(strings.NewReader(bidderregistry.BidderregistryMetaData.ABI))
+	storeABI, _  = abi.JSON(strings.NewReader(preconfcommitmentstore.PreconfcommitmentstoreMetaData.ABI))
+	regAddr      = common.HexToAddress("0x00000000000000000000000000000000000000b1")
+	daAddr       = common.HexToAddress("0x00000000000000000000000000000000000000da")
 	validator, _ = protovalidate.New()
 )
 
 type scriptStream struct {
-	in   In
-	log  func(Effect)
+	in  In
+	log func(Effect)
 }
 
 func (s *scriptStream) ReadMsg(_ context.Context, m proto.Message) error {
@@ -203,7 +205,7 @@ type decSrv struct {
 	ended   chan struct{}
 }
 
-func (d *decSrv) Context() context.Context                        { return d.ctx }
+func (d *decSrv) Context() context.Context                       { return d.ctx }
 func (d *decSrv) SendAndClose(*providerapiv1.EmptyMessage) error { return nil }
 func (d *decSrv) Recv() (*providerapiv1.BidResponse, error) {
 	select {
@@ -400,6 +402,131 @@ func run(in In) (obs Obs) {
 	return obs
 }
 
+// runConcurrent: k accepted bids handled at the same time by ONE Preconfirmation / preconf-contract
+// instance over the REAL EvmClient (scripted chain node).  The first Send is held inside the
+// node call that fetches the pending nonce while the other handlers run up to the client's
+// mutex; then everything is released.  Observation: every settlement transaction that reached
+// the node (destination, calldata) and every commitment written.
+func runConcurrent(ins []In) (obs Obs) {
+	obs.Effects = []Effect{}
+	obs.EngineFieldsOK = true
+	var mu sync.Mutex
+	logE := func(e Effect) { mu.Lock(); obs.Effects = append(obs.Effects, e); mu.Unlock() }
+	rng := vh.NewRng(4242)
+	ks := vh.NewKeySigner(rng)
+	sgn := preconfsigner.NewSigner(ks)
+	gate := make(chan struct{})
+	first := make(chan struct{}, 1)
+	var once sync.Once
+	nonce := uint64(1)
+	node := mockevm.NewMockEvm(31337,
+		mockevm.WithPendingNonceAtFunc(func(context.Context, common.Address) (uint64, error) {
+			held := false
+			once.Do(func() { held = true })
+			if held {
+				first <- struct{}{}
+				<-gate
+			}
+			mu.Lock()
+			defer mu.Unlock()
+			return nonce, nil
+		}),
+		mockevm.WithEstimateGasFunc(func(context.Context, ethereum.CallMsg) (uint64, error) { return 100000, nil }),
+		mockevm.WithSuggestGasPriceFunc(func(context.Context) (*big.Int, error) { return big.NewInt(2000000000), nil }),
+		mockevm.WithSuggestGasTipCapFunc(func(context.Context) (*big.Int, error) { return big.NewInt(1000000000), nil }),
+		mockevm.WithSendTransactionFunc(func(_ context.Context, tx *types.Transaction) error {
+			e := Effect{T: "store", CallData: hx(tx.Data())}
+			if tx.To() != nil {
+				e.To = hx(tx.To().Bytes())
+			}
+			logE(e)
+			mu.Lock()
+			nonce++
+			mu.Unlock()
+			return nil
+		}),
+	)
+	client, err := evmclient.New(ks, node, vh.Quiet())
+	if err != nil {
+		panic(err)
+	}
+	defer client.Close()
+	a := allowanceYes()
+	regClient := mockevmclient.New(mockevmclient.WithCallFunc(func(_ context.Context, req *evmclient.TxRequest) ([]byte, error) {
+		if len(req.CallData) >= 4 && string(req.CallData[:4]) == string(bidABI.Methods["minAllowance"].ID) {
+			b, _ := hex.DecodeString(a[0].Bytes)
+			return b, nil
+		}
+		b, _ := hex.DecodeString(a[1].Bytes)
+		return b, nil
+	}))
+	us := bidderreg.New(regAddr, regClient, vh.Quiet())
+	da := preconfcontract.New(daAddr, client, vh.Quiet())
+	svc := providerapi.NewService(vh.Quiet(), nil, common.Address{}, nil, validator)
+	pc := preconfirmation.New(nil, nil, sgn, us, svc, da, vh.Quiet())
+	handler := pc.Streams()[0].Handler
+	root, cancelRoot := context.WithCancel(context.Background())
+	defer cancelRoot()
+	// engine: accept everything it receives
+	rs := &recvSrv{ctx: root, bids: make(chan *providerapiv1.Bid, 16)}
+	go func() { _ = svc.ReceiveBids(&providerapiv1.EmptyMessage{}, rs) }()
+	ds := &decSrv{ctx: root, in: make(chan *providerapiv1.BidResponse), entered: make(chan struct{}, 1), ended: make(chan struct{})}
+	go func() { defer close(ds.ended); _ = svc.SendProcessedBids(ds) }()
+	go func() {
+		for {
+			select {
+			case b := <-rs.bids:
+				select {
+				case ds.in <- &providerapiv1.BidResponse{BidDigest: b.BidDigest, Status: 1}:
+				case <-root.Done():
+					return
+				}
+			case <-root.Done():
+				return
+			}
+		}
+	}()
+	var wg sync.WaitGroup
+	for i := range ins {
+		in := ins[i]
+		wg.Add(1)
+		go func() {
+			defer wg.Done()
+			defer func() {
+				if r := recover(); r != nil {
+					mu.Lock()
+					obs.Panic = true
+					mu.Unlock()
+				}
+			}()
+			_ = handler(root, p2p.Peer{Type: p2p.PeerTypeBidder}, &scriptStream{in, logE})
+		}()
+		if i == 0 {
+			// wait until the first handler is inside the chain-node call of its settlement Send
+			select {
+			case <-first:
+			case <-time.After(3 * time.Second):
+				obs.Stuck = true
+			}
+		}
+	}
+	time.Sleep(30 * time.Millisecond) // the others run up to the client's mutex
+	close(gate)
+	fin := make(chan struct{})
+	go func() { wg.Wait(); close(fin) }()
+	select {
+	case <-fin:
+	case <-time.After(5 * time.Second):
+		obs.Stuck = true
+	}
+	obs.Result = "concurrent"
+	return obs
+}
+
+func allowanceYes() [2]Ans {
+	return [2]Ans{{Bytes: word(big.NewInt(10))}, {Bytes: word(big.NewInt(20))}}
+}
+
 type signSpy struct {
 	*vh.KeySigner
 	log func(Effect)
@@ -510,6 +637,18 @@ func main() {
 			emit("store-fails", 2, true, mkBid("valid"), "yes", accept, true, false, true)
 			emit("write-fails", 2, true, mkBid("valid"), "yes", accept, true, true, false)
 		}
+		// several bids in flight at once through one contract client (real EvmClient underneath)
+		for i := 0; i < vh.Count(6, 60); i++ {
+			k := 2 + rng.Intn(3)
+			var ins []In
+			for j := 0; j < k; j++ {
+				b := mkBid("valid")
+				in := In{Tag: "concurrent", Role: 2, ReadOK: true, Bid: toJ(b), MinAns: yes[0], AmtAns: yes[1], Schedule: accept,
+					SignOK: true, StoreOK: true, WriteOK: true, Selector: sel, Prims: []Prim{prim(b.Digest, b.Signature)}}
+				ins = append(ins, in)
+			}
+			out.Emit(map[string]any{"tag": "concurrent", "selector": sel, "bids": ins}, runConcurrent(ins))
+		}
 		return
 	}
 	// ---- C01: gate matrix (one gate failing at a time, and all pairs on a sample), engine behaviours
@@ -518,21 +657,21 @@ func main() {
 		"fmt-hash", "fmt-hash-empty-entry", "fmt-amount-zero", "fmt-amount-2^64", "fmt-block", "fmt-start", "fmt-end"}
 	allows := []string{"yes", "equal", "no", "call-error", "min-error", "malformed"}
 	scheds := map[string][]Event{
-		"accept":                 accept,
-		"reject":                 {H, D(true, 2)},
-		"status-0":               {H, D(true, 0), D(true, 1)},
-		"status-3":               {H, D(true, 3)},
-		"status-3-then-accept":   {H, D(true, 3), D(true, 1)},
-		"wrong-digest-accept":    {H, D(false, 1)},
-		"wrong-then-right":       {H, D(false, 1), D(false, 2), D(true, 1)},
-		"duplicate-accept":       {H, D(true, 1), D(true, 1), D(true, 2)},
-		"reject-then-accept":     {H, D(true, 2), D(true, 1)},
-		"silence":                {H},
-		"never-taken":            {},
-		"cancel-before-handoff":  {{T: "cancel"}, H, D(true, 1)},
-		"accept-after-deadline":  {H, {T: "deadline"}, D(true, 1)},
-		"accept-after-cancel":    {H, {T: "cancel"}, D(true, 1)},
-		"wrong-accept-deadline":  {H, D(false, 1), {T: "deadline"}},
+		"accept":                accept,
+		"reject":                {H, D(true, 2)},
+		"status-0":              {H, D(true, 0), D(true, 1)},
+		"status-3":              {H, D(true, 3)},
+		"status-3-then-accept":  {H, D(true, 3), D(true, 1)},
+		"wrong-digest-accept":   {H, D(false, 1)},
+		"wrong-then-right":      {H, D(false, 1), D(false, 2), D(true, 1)},
+		"duplicate-accept":      {H, D(true, 1), D(true, 1), D(true, 2)},
+		"reject-then-accept":    {H, D(true, 2), D(true, 1)},
+		"silence":               {H},
+		"never-taken":           {},
+		"cancel-before-handoff": {{T: "cancel"}, H, D(true, 1)},
+		"accept-after-deadline": {H, {T: "deadline"}, D(true, 1)},
+		"accept-after-cancel":   {H, {T: "cancel"}, D(true, 1)},
+		"wrong-accept-deadline": {H, D(false, 1), {T: "deadline"}},
 	}
 	var snames []string
 	for k := range scheds {
